@@ -308,6 +308,11 @@ static void out_handle(KSI_AsyncHandle *h) {
 		KSI_Signature_free(sig);
 	} else if (state == KSI_ASYNC_STATE_PUSH_CONFIG_RECEIVED) {
 		KSI_Config *cfg = NULL; char b[512] = "-"; if (KSI_AsyncHandle_getConfig(h, &cfg) == KSI_OK && cfg) fmt_config(cfg, b, sizeof b); kx_out(" config=%s", b);
+	} else if (state == KSI_ASYNC_STATE_ERROR) {
+		/* a request that ended with an error has no signature and no response to offer (whatever an earlier round of the same handle object produced) */
+		KSI_Signature *sig = NULL; KSI_AggregationResp *ar = NULL; KSI_ExtendResp *er = NULL;
+		r = KSI_AsyncHandle_getSignature(h, &sig); kx_out(" errsigrc=%d", r); if (r == KSI_OK && sig) out_sig("errsig", sig); KSI_Signature_free(sig);
+		if ((KSI_AsyncHandle_getAggregationResp(h, &ar) == KSI_OK && ar) || (KSI_AsyncHandle_getExtendResp(h, &er) == KSI_OK && er)) kx_out(" errresp=1");
 	}
 }
 
@@ -455,7 +460,7 @@ bs_done:
 			if (strcmp(tok[5], "-")) { KSI_Integer_new(c, strtoull(tok[5], NULL, 0), &p); KSI_ExtendReq_setPublicationTime(rq, p); }
 			rc = KSI_AsyncExtendHandle_new(c, rq, &h); if (rc) { KSI_ExtendReq_free(rq); return rc; } tag = tok[6]; }
 		else if (!strcmp(tok[3], "extsig")) { KSI_Signature *sg = *kx_sigslot(atoi(tok[4])); KSI_PublicationRecord *pr = NULL; KSI_PublicationData *pd = NULL;
-			if (strcmp(tok[5], "-")) { rc = KSI_PublicationData_fromBase32(c, tok[5], &pd); if (rc) return rc; KSI_PublicationRecord_new(c, &pr); KSI_PublicationRecord_setPublishedData(pr, pd); }
+			if (strcmp(tok[5], "-")) { rc = KSI_PublicationData_fromBase32(c, tok[5], &pd); if (rc) return rc; rc = KSI_PublicationRecord_new(c, &pr); if (rc) { KSI_PublicationData_free(pd); return rc; } KSI_PublicationRecord_setPublishedData(pr, pd); }
 			rc = KSI_AsyncExtendingHandle_new(c, sg, pr, &h); if (rc) { KSI_PublicationRecord_free(pr); return rc; } borrowed_pr = pr; tag = tok[6]; }
 		else if (!strcmp(tok[3], "signconf")) { KSI_AggregationReq *rq = NULL; KSI_Config *cfg = NULL; rc = KSI_AggregationReq_new(c, &rq); if (rc) return rc;
 			rc = KSI_Config_new(c, &cfg); if (rc) { KSI_AggregationReq_free(rq); return rc; } KSI_AggregationReq_setConfig(rq, cfg); rc = KSI_AsyncAggregationHandle_new(c, rq, &h); if (rc) { KSI_AggregationReq_free(rq); return rc; } tag = tok[4]; }
@@ -468,8 +473,17 @@ bs_done:
 		return rc; }
 	if (is("async_run")) { KSI_AsyncService *s = *kx_asvcslot(atoi(tok[1])); KSI_AsyncHandle *h = NULL; size_t waiting = 0; int rc = KSI_AsyncService_run(s, &h, &waiting);
 		kx_out(" waiting=%zu", waiting);
-		if (h) { kx_out(" handle=1"); out_handle(h); KSI_AsyncHandle_free(h); } else kx_out(" handle=0");
+		if (h) { kx_out(" handle=1"); out_handle(h);
+			if (kx_kv("keep")) { KSI_AsyncHandle **hs = kx_ahndslot((int)kx_kvl("keep", 0)); KSI_AsyncHandle_free(*hs); *hs = h; }   /* keep=<slot>: the caller keeps the handle object (async_readd adds it again) */
+			else KSI_AsyncHandle_free(h); } else kx_out(" handle=0");
 		return rc; }
+	if (is("async_readd")) { /* async_readd <a> <slot>: the handle object kept from an earlier round is added to the service once more */
+		KSI_AsyncService *s = *kx_asvcslot(atoi(tok[1])); KSI_AsyncHandle **hs = kx_ahndslot(atoi(tok[2])); int rc; KSI_uint64_t id = 0;
+		if (!*hs) return -5;
+		rc = KSI_AsyncService_addRequest(s, *hs);
+		if (rc == KSI_OK) { KSI_AsyncHandle_getRequestId(*hs, &id); kx_out(" reqid=%llu", (unsigned long long)id); *hs = NULL; }
+		return rc; }
+	if (is("ahnd_free")) { KSI_AsyncHandle **hs = kx_ahndslot(atoi(tok[1])); KSI_AsyncHandle_free(*hs); *hs = NULL; return 0; }
 	if (is("async_counts")) { KSI_AsyncService *s = *kx_asvcslot(atoi(tok[1])); size_t p = 0, r = 0; int rc = KSI_AsyncService_getPendingCount(s, &p); int rc2 = KSI_AsyncService_getReceivedCount(s, &r); kx_out(" pending=%zu received=%zu rc2=%d", p, r, rc2); return rc; }
 	*handled = 0; return 0;
 }
